@@ -29,6 +29,14 @@ pub fn gen_case(rng: &mut Rng) -> Vec<String> {
             6 => format!("lookup w{}", rng.below(vocab)),
             7 | 8 => { n_solv += 1; format!("solv {} {}", rng.below(n_name.max(1)), rng.below(50)) }
             9 | 10 => { n_vs += 1; format!("vs {} {}", rng.below(n_name.max(1).min(6)), rng.below(8)) }
+            11 if n_vs > 0 && rng.chance(1, 4) => {
+                // the iterator handed to `intern_version_set_union` itself interns another union while it is consumed (a provider
+                // that builds nested requirements)
+                n_union += 2;
+                let ids = |rng: &mut Rng, k: u64| (0..k).map(|_| format!(" {}", rng.below(n_vs.min(40)))).collect::<String>();
+                let (ko, ki) = (rng.range(1, 5), rng.range(1, 4));
+                format!("unionnest{} /{}", ids(rng, ko), ids(rng, ki))
+            }
             11 => { if n_vs == 0 { "check-stable".into() } else { n_union += 1; let k = rng.range(1, 5); format!("union{}", (0..k).map(|_| format!(" {}", rng.below(n_vs.min(40)))).collect::<String>()) } }
             12 => format!("rstr {}", rng.below(n_str.max(1) + 1)),
             13 => format!("rname {}", rng.below(n_name.max(1) + 1)),
@@ -62,6 +70,20 @@ pub fn run_case(lines: &[String]) -> Vec<String> {
                 "solv" => { let id = pool.intern_solvable(NameId(t[1].parse().unwrap()), t[2].parse().unwrap()); let s = pool.resolve_solvable(id); held_solv.push((id.0, s as *const _ as usize, (s.name.0, s.record))); format!("id {}", id.0) }
                 "vs" => format!("id {}", pool.intern_version_set(NameId(t[1].parse().unwrap()), Vs(t[2].parse().unwrap())).0),
                 "union" => { let ids: Vec<VersionSetId> = t[1..].iter().map(|x| VersionSetId(x.parse().unwrap())).collect(); format!("id {}", pool.intern_version_set_union(ids[0], ids[1..].iter().copied()).0) }
+                "unionnest" => {
+                    let cut = t.iter().position(|x| *x == "/").unwrap();
+                    let outer: Vec<VersionSetId> = t[1..cut].iter().map(|x| VersionSetId(x.parse().unwrap())).collect();
+                    let inner: Vec<VersionSetId> = t[cut + 1..].iter().map(|x| VersionSetId(x.parse().unwrap())).collect();
+                    let mut inner_id = None;
+                    let mut rest = outer[1..].iter().copied();
+                    let pool_ref = &pool;
+                    let others = std::iter::from_fn(|| {
+                        if inner_id.is_none() { inner_id = Some(pool_ref.intern_version_set_union(inner[0], inner[1..].iter().copied())); }
+                        rest.next()
+                    });
+                    let id = pool.intern_version_set_union(outer[0], others);
+                    format!("id {} {}", id.0, inner_id.map(|x| x.0 as i64).unwrap_or(-1))
+                }
                 "rstr" => format!("val {}", pool.resolve_string(StringId(t[1].parse().unwrap()))),
                 "rname" => format!("val {}", pool.resolve_package_name(NameId(t[1].parse().unwrap()))),
                 "rsolv" => { let s = pool.resolve_solvable(SolvableId(t[1].parse().unwrap())); format!("val {} {}", s.name.0, s.record) }
